@@ -28,3 +28,5 @@ func vfYield()
 func vfSameObject(a, b []byte) bool
 func vfOffsetOf(a []byte) int
 func vfPrune()
+func vfOffsetIn(a, region []byte) int
+func vfSpawnAtomic(f func())
